@@ -318,15 +318,16 @@ func (ms *Modules) process() []error {
 	var mods []*Module
 	var errs []error
 
-	// Collect the list of modules we know about now so when we range
-	// below we don't pick up new modules.  We assume the user tells
-	// us explicitly which modules they are interested in.
-	mods = sortedModules(ms.Modules)
 	// Linking loads the modules that are missing, and what an import
 	// without a revision date denotes depends on the modules that are
 	// loaded.  Link again until a pass has loaded nothing, so that the
 	// links do not depend on the order in which the modules are visited.
 	for {
+		// Collect the list of modules we know about now so when we range
+		// below we don't pick up new modules.  A module that a pass has
+		// loaded is linked from in the next pass like the others: a second
+		// run would start from it as well, and must find nothing new.
+		mods = sortedModules(ms.Modules)
 		loaded := len(ms.Modules) + len(ms.SubModules)
 		ms.includes = map[*Module]bool{}
 		errs = nil
